@@ -58,10 +58,20 @@ def main():
             break
         rng = rng_for(spec['seed'], prop, spec['kind'], idx)
         ctx.begin_case(idx)
+        # per-case watchdog (a C-level thread of faulthandler, so it fires
+        # even when the interpreter is stuck in native code or in a
+        # deadlocked allocator after heap corruption): the process exits,
+        # the driver records the case as hung (inconclusive) and goes on
+        # behind it
+        faulthandler.dump_traceback_later(
+            spec.get('case_timeout', int(os.environ.get('VF_CASE_TIMEOUT',
+                                                        600))), exit=True)
         try:
             mod.run_case(ctx, spec['kind'], rng, idx)
         except Exception as e:  # noqa
             ctx.crash('uncaught.%s' % type(e).__name__, e)
+        finally:
+            faulthandler.cancel_dump_traceback_later()
         done += 1
         if san_prefix:
             # ThreadSanitizer keeps running after a report: attribute new
